@@ -621,6 +621,14 @@ func sortedMapKeys(m reflect.Value) []reflect.Value {
 		ni, iok := numeric(keys[i])
 		nj, jok := numeric(keys[j])
 		if iok && jok {
+			if ni != ni || nj != nj {
+				// NaN is neither less than nor equal to anything: it goes after the numbers,
+				// or the order of the other keys would depend on where it happened to stand
+				if ni != ni && nj != nj {
+					return keyTypeName(keys[i]) < keyTypeName(keys[j])
+				}
+				return nj != nj
+			}
 			if ni == nj {
 				// 1, int64(1) and 1.0 are distinct keys: keep them in a fixed order too
 				return keyTypeName(keys[i]) < keyTypeName(keys[j])
